@@ -46,9 +46,9 @@ ENCODED = [
 
 BOUNDS = (
     "12 exception classes chosen by a symbolic index (3 built-in, 5 user-defined with no / str / empty / int / None error_kind, the 4 typed framework errors); "
-    "message text = concatenation of <= %d atoms from a 6-atom alphabet (one per UTF-8 width, newline, quote) plus 5 concrete messages incl. empty and 40 000 chars; "
+    "message text = concatenation of <= %d atoms from a 6-atom alphabet (one per UTF-8 width, newline, quote) plus %d concrete messages incl. empty and 40 000 chars, and (3 classes) four very long ones (300 000 ASCII, 30 000 CJK, 30 000 astral, 120 000 chars of escapes) through real json; "
     "4 socket dispatch sites; every http.HTTPStatus member."
-) % pick(3, 4)
+) % (pick(3, 4), 5)
 OUTSIDE = (
     "arbitrary code points in the message (f'{exc}' in from_exception realises a symbolic message under CrossHair, so the text is drawn from an alphabet; lone surrogates are in the alphabet of the un-stubbed item error_text_without_utf8_encoding_still_arrives); "
     "symbolic class names (a class cannot be given a symbolic __name__); chained exceptions (__cause__/__context__); the content of remote_traceback; "
@@ -261,16 +261,61 @@ def _concrete(i: int, n: int) -> int:
     raise HarnessModelError("index out of range")
 
 
-def _kernel(ci: int, msg: str, has_sid: bool):  # type: ignore[no-untyped-def]
-    """Server half then client half; returns (exc, RpcError | None, other exception | None)."""
+def _untraced(fn, *a, **k):  # type: ignore[no-untyped-def]
+    """Call a C-library function as it is, outside CrossHair's tracer (arguments realised first).  Under the
+    tracer ``json`` is CrossHair's pure-Python re-implementation: one regex recursion per escaped character,
+    which cannot serve documents of 10^5 characters.  Only used where every argument is concrete."""
+    try:
+        from crosshair.core import deep_realize
+        from crosshair.tracers import NoTracing, is_tracing
+    except ImportError:  # pragma: no cover
+        return fn(*a, **k)
+    if not is_tracing():
+        return fn(*a, **k)
+    a, k = deep_realize(a), deep_realize(k)
+    with NoTracing():
+        return fn(*a, **k)
+
+
+class _NativeJson:
+    """``json`` := the real C codec, invoked outside the tracer (identity on concrete values)."""
+
+    JSONDecodeError = _real_json.JSONDecodeError
+
+    def dumps(self, obj, *a, **k):  # type: ignore[no-untyped-def]
+        return _untraced(_real_json.dumps, obj, *a, **k)
+
+    def loads(self, text, *a, **k):  # type: ignore[no-untyped-def]
+        return _untraced(_real_json.loads, text, *a, **k)
+
+    def __getattr__(self, name: str):  # pragma: no cover
+        raise HarnessModelError("json (native) touched through " + name)
+
+
+_NJ = _NativeJson()
+
+
+class _MsgNative(Message):
+    add_to_metadata = reglobalize(Message.add_to_metadata, json=_NJ)
+
+
+_write_error_batch_nj = reglobalize(wire._write_error_batch, Message=_MsgNative)
+_dispatch_nj = reglobalize(wire._dispatch_log_or_error, json=_NJ)
+
+
+def _kernel(ci: int, msg: str, has_sid: bool, real_codec: bool = False):  # type: ignore[no-untyped-def]
+    """Server half then client half; returns (exc, RpcError | None, other exception | None).
+
+    ``real_codec``: the real C json codec (called outside the tracer) and the real Arrow metadata container (for
+    concrete messages: document sizes, escaping and byte lengths are the real ones); only the writer is a list."""
     exc = _CLASSES[ci](msg)
     _T["obj"] = None
     w = _RecWriter()
-    _write_error_batch_rt(w, _SCHEMA, exc, server_id="srv" if has_sid else None)
+    (_write_error_batch_nj if real_codec else _write_error_batch_rt)(w, _SCHEMA, exc, server_id="srv" if has_sid else None)
     # the client reads what was written, in order, until a batch raises (how many batches carry the error is not C07's)
     for batch, cm in w.written:
         try:
-            _dispatch_rt(batch, cm, None)
+            (_dispatch_nj if real_codec else _dispatch_rt)(batch, cm, None)
         except RpcError as e:
             return exc, e, None
         except Exception as e:  # noqa: BLE001
@@ -296,6 +341,10 @@ def _kind_exposed(ci: int, err) -> bool:  # type: ignore[no-untyped-def]
 _NM = pick(3, 4)
 _TEXT_CLASSES = (0, 4, 9)  # ValueError, KindedAppError, MethodNotImplementedError (an AttributeError)
 _MESSAGES = ("", "x", "line one\nline two", "h\u00e9 \u2713 \U0001f600", "L" * 40000)
+_N_SHORT_MESSAGES = len(_MESSAGES)
+# "very long": well past any size a transport or reader might consider ordinary, in each encoding width
+# (a non-ASCII character costs 6-12 bytes in the JSON document that carries the class name and traceback)
+_LONG_MESSAGES = ("L" * 300_000, "\u65e5" * 30_000, "\U0001f600" * 30_000, "\\\"\n" * 40_000)
 # one representative per UTF-8 width plus the characters that matter to the formatting code
 _ATOMS = ("a", "\n", "\u00e9", "\u2713", "\U0001f600", "'")
 
@@ -323,6 +372,10 @@ def _replay_class(args: dict) -> str | None:
     return _replay_faithful(args["ci"], _MESSAGES[args["mi"]], args["has_sid"])
 
 
+def _replay_long(args: dict) -> str | None:
+    return _replay_faithful(_TEXT_CLASSES[args["c3"]], _LONG_MESSAGES[args["li"]], args["has_sid"])
+
+
 @cond(q=100, t=300, encoded=ENCODED, stubs=_RT_STUBS, replay=_replay_text, signature=lambda a, c: "C07:kernel:message-text-not-carried",
       bound="message = concatenation of <= %d atoms chosen by symbolic indices from %r, for ValueError / a user class with a kind / MethodNotImplementedError" % (_NM, _ATOMS))
 def error_message_text_roundtrip(c3: int, n: int, a0: int, a1: int, a2: int, a3: int) -> bool:
@@ -343,16 +396,33 @@ def error_message_text_roundtrip(c3: int, n: int, a0: int, a1: int, a2: int, a3:
     return other is None and _faithful(ci, exc, err)
 
 
-@cond(q=60, t=120, encoded=ENCODED, stubs=_RT_STUBS, replay=_replay_class, signature=lambda a, c: "C07:kernel:%s:not-faithful" % _NAMES[a["ci"]],
-      bound="12 exception classes x 5 concrete messages (empty, 1 char, multi-line, non-ASCII, 40 000 chars) x server_id set or not")
+@cond(q=60, t=120, encoded=ENCODED, stubs=["ipc writer := recording list", "json := the real C codec, invoked outside the tracer (identity; all arguments concrete); real Arrow metadata container"], replay=_replay_class,
+      signature=lambda a, c: "C07:kernel:%s:not-faithful" % _NAMES[a["ci"]],
+      bound="12 exception classes x %d concrete messages (empty, 1 char, multi-line, non-ASCII, 40 000 chars) x server_id set or not; real json and pyarrow metadata (the message is concrete here)" % len(_MESSAGES))
 def error_class_roundtrip(ci: int, mi: int, has_sid: bool) -> bool:
     """
-    pre: 0 <= ci <= 11 and 0 <= mi <= 4
+    pre: 0 <= ci <= 11 and 0 <= mi < len(_MESSAGES)
     post: _
     """
     ci = _concrete(ci, len(_CLASSES))
     try:
-        exc, err, other = _kernel(ci, _MESSAGES[_concrete(mi, 5)], has_sid)
+        exc, err, other = _kernel(ci, _MESSAGES[_concrete(mi, len(_MESSAGES))], has_sid, real_codec=True)
+    except Exception:  # noqa: BLE001
+        return False
+    return other is None and _faithful(ci, exc, err)
+
+
+@cond(q=150, t=300, encoded=ENCODED, stubs=["ipc writer := recording list", "json := the real C codec, invoked outside the tracer (identity; all arguments concrete); real Arrow metadata container"],
+      replay=_replay_long, signature=lambda a, c: "C07:kernel:very-long-message:not-faithful",
+      bound="very long messages (300 000 ASCII chars, 30 000 CJK, 30 000 astral, 120 000 chars of quotes/backslashes/newlines) x ValueError / a user class with a kind / MethodNotImplementedError x server_id set or not; real json and pyarrow metadata: the real document and metadata sizes")
+def very_long_message_roundtrip(c3: int, li: int, has_sid: bool) -> bool:
+    """
+    pre: 0 <= c3 <= 2 and 0 <= li < len(_LONG_MESSAGES)
+    post: _
+    """
+    ci = _TEXT_CLASSES[_concrete(c3, 3)]
+    try:
+        exc, err, other = _kernel(ci, _LONG_MESSAGES[_concrete(li, len(_LONG_MESSAGES))], has_sid, real_codec=True)
     except Exception:  # noqa: BLE001
         return False
     return other is None and _faithful(ci, exc, err)
@@ -768,7 +838,7 @@ def error_at_dispatch_sites(ci: int, mi: int, site: int) -> bool:
     pre: 0 <= ci < len(_SITE_CLASSES) and 0 <= mi <= _MI and 0 <= site <= 3
     post: _
     """
-    return _site_ok(_concrete(ci, len(_SITE_CLASSES)), _MESSAGES[1 if QUICK else _concrete(mi, 5)], _concrete(site, 4), real=False)
+    return _site_ok(_concrete(ci, len(_SITE_CLASSES)), _MESSAGES[1 if QUICK else _concrete(mi, _N_SHORT_MESSAGES)], _concrete(site, 4), real=False)
 
 
 # ---------------------------------------------------------------------------
